@@ -18,14 +18,18 @@ CONSTANTS Vals,           \* abstract stored values (positive integers)
                           \* system SCOREs (service/scoredb): every path starts with the type part 0x00 array / 0x01 dict / 0x02 var,
                           \* so an array, a dictionary and a variable may all have the SAME name
           BRawId,         \* raw (contract) prefix: "" none | "p" one byte | "adr" a 21-byte contract address
+          Snaps,          \* BOOLEAN: a read-only snapshot of the store may be taken (scoredb.NewStateStoreWith / containerdb.
+                          \* NewBytesStoreStateWithSnapshot) and containers opened on it: they read the frozen contents, writes fail
           Proj(_)         \* store projection logged after every step (FullProj in generators, NoProj when checking)
 None == 0
 BRaw == CASE BRawId = "" -> <<>> [] BRawId = "p" -> <<112>> [] BRawId = "adr" -> <<1>> \o Fill(20, 171)
 
 VARIABLES store,          \* concrete: function  built key -> entry [t |-> "size"|"val", v |-> n]
           arr, dict, var, \* ideal contents
+          snap,           \* [on, s]: the frozen store of the latest snapshot
+          sideal,         \* ideal contents <<arr, dict, var>> at the time of the snapshot
           hist
-vars == <<store, arr, dict, var, hist>>
+vars == <<store, arr, dict, var, snap, sideal, hist>>
 
 \* ---- the container universe ---------------------------------------------------------
 a == <<97>>
@@ -64,13 +68,13 @@ CSize(s, c) == GetV(s, Key(Base(c)))                        \* ArrayDB.Size(): a
 EKey(c, i) == Key(Base(c) \o <<IntPart(i)>>)
 
 \* ---- ideal store: what the store must contain, given the ideal contents -------------
-IdealPairs ==
-  {p \in {<<c, i>> : c \in Arrays, i \in 1..MaxLen} : p[2] <= Len(arr[p[1]])}
-IdealStorePairs ==
-  {<<Key(Base(c)), Size(Len(arr[c]))>> : c \in {x \in Arrays : Len(arr[x]) > 0}}
-  \cup {<<EKey(p[1], p[2] - 1), Val(arr[p[1]][p[2]])>> : p \in IdealPairs}
-  \cup UNION {{<<Key(Base(d) \o ks), Val(dict[d][ks])>> : ks \in {x \in KeySeqs(DepthOf(d)) : dict[d][x] # None}} : d \in Dicts}
-  \cup {<<Key(Base(v)), Val(var[v])>> : v \in {x \in Vars : var[x] # None}}
+IdealPairsOf(ar, di, va) ==
+  LET elems == {p \in {<<c, i>> : c \in Arrays, i \in 1..MaxLen} : p[2] <= Len(ar[p[1]])} IN
+  {<<Key(Base(c)), Size(Len(ar[c]))>> : c \in {x \in Arrays : Len(ar[x]) > 0}}
+  \cup {<<EKey(p[1], p[2] - 1), Val(ar[p[1]][p[2]])>> : p \in elems}
+  \cup UNION {{<<Key(Base(d) \o ks), Val(di[d][ks])>> : ks \in {x \in KeySeqs(DepthOf(d)) : di[d][x] # None}} : d \in Dicts}
+  \cup {<<Key(Base(v)), Val(va[v])>> : v \in {x \in Vars : va[x] # None}}
+IdealStorePairs == IdealPairsOf(arr, dict, var)
 StorePairs(s) == {<<k, s[k]>> : k \in DOMAIN s}
 
 Rec(op, c, i, ks, v, via) == [op |-> op, c |-> c, i |-> i, ks |-> ks, v |-> v, via |-> via,
@@ -78,12 +82,14 @@ Rec(op, c, i, ks, v, via) == [op |-> op, c |-> c, i |-> i, ks |-> ks, v |-> v, v
 \* res = result predicted from the concrete transcription, ires = result of the ideal container
 FullProj(s) == {[k |-> k, e |-> s[k]] : k \in DOMAIN s}
 NoProj(s) == {}
-Log(r, res, ires) == hist' = Append(hist, r @@ [res |-> res, ires |-> ires, store |-> Proj(store')])
+LogOnly(r, res, ires) == hist' = Append(hist, r @@ [res |-> res, ires |-> ires, store |-> Proj(store')])
+Log(r, res, ires) == LogOnly(r, res, ires) /\ UNCHANGED <<snap, sideal>>
 
 Init == /\ store = << >>
         /\ arr = [c \in Arrays |-> <<>>]
         /\ dict = [d \in Dicts |-> [ks \in KeySeqs(DepthOf(d)) |-> None]]
         /\ var = [v \in Vars |-> None]
+        /\ snap = [on |-> FALSE, s |-> << >>] /\ sideal = <<>>
         /\ hist = <<>>
 
 \* ---- ArrayDB ------------------------------------------------------------------------
@@ -152,6 +158,36 @@ VarGet(x) ==
   /\ UNCHANGED <<store, arr, dict, var>>
   /\ Log(Rec("vget", x, 0, <<>>, None, FALSE), GetV(store, Key(Base(x))), var[x])
 
+\* ---- read-only snapshot ------------------------------------------------------------
+OnSnap(r) == r @@ [on |-> "snap"]
+Freeze ==
+  /\ Snaps /\ snap' = [on |-> TRUE, s |-> store] /\ sideal' = <<arr, dict, var>>
+  /\ UNCHANGED <<store, arr, dict, var>>
+  /\ LogOnly(Rec("freeze", "A1", 0, <<>>, None, FALSE), "ok", "ok")     \* (the container name is a dummy)
+\* reads on containers opened on the snapshot see the frozen contents, whatever was written to the live store since
+SnapRead(op, c, i, ks) ==
+  /\ snap.on /\ UNCHANGED <<store, arr, dict, var>>
+  /\ LET sa == sideal[1] sd == sideal[2] sv == sideal[3] IN
+     Log(OnSnap(Rec(op, c, i, ks, None, FALSE)),
+         CASE op = "aget" -> GetV(snap.s, EKey(c, i)) [] op = "size" -> CSize(snap.s, c)
+           [] op = "dget" -> GetV(snap.s, Key(Base(c) \o ks)) [] op = "vget" -> GetV(snap.s, Key(Base(c))),
+         CASE op = "aget" -> (IF i < Len(sa[c]) THEN sa[c][i + 1] ELSE None) [] op = "size" -> Len(sa[c])
+           [] op = "dget" -> sd[c][ks] [] op = "vget" -> sv[c])
+\* writes through a snapshot store fail and change nothing (Pop is left out: ArrayDB.Pop panics when the store refuses)
+SnapWrite(op, c, i, ks, v) ==
+  /\ snap.on /\ UNCHANGED <<store, arr, dict, var>>
+  /\ Log(OnSnap(Rec(op, c, i, ks, v, FALSE)), "error", "error")
+AnySnapRead == \/ \E c \in Arrays, i \in 0..MaxLen : SnapRead("aget", c, i, <<>>)
+               \/ \E c \in Arrays : SnapRead("size", c, 0, <<>>)
+               \/ \E d \in Dicts : \E ks \in KeySeqs(DepthOf(d)) : SnapRead("dget", d, 0, ks)
+               \/ \E x \in Vars : SnapRead("vget", x, 0, <<>>)
+AnySnapWrite == \/ \E c \in Arrays, v \in Vals : SnapWrite("put", c, 0, <<>>, v)
+                \/ \E c \in Arrays, v \in Vals : SnapWrite("aset", c, 0, <<>>, v)
+                \/ \E d \in Dicts, v \in Vals : \E ks \in KeySeqs(DepthOf(d)) : SnapWrite("dset", d, 0, ks, v)
+                \/ \E d \in Dicts : \E ks \in KeySeqs(DepthOf(d)) : SnapWrite("ddel", d, 0, ks, None)
+                \/ \E x \in Vars, v \in Vals : SnapWrite("vset", x, 0, <<>>, v)
+                \/ \E x \in Vars : SnapWrite("vdel", x, 0, <<>>, None)
+
 Can == Len(hist) < MaxOps
 \* (the bound is tested before the arguments are enumerated)
 AnyDictSet == \E d \in Dicts, v \in Vals, via \in BOOLEAN : \E ks \in KeySeqs(DepthOf(d)) :
@@ -174,6 +210,9 @@ Next == \/ Can /\ \E c \in Arrays, v \in Vals : ArrPut(c, v)
         \/ Can /\ \E x \in Vars, v \in Vals : VarSet(x, v)
         \/ Can /\ \E x \in Vars : VarDelete(x)
         \/ Can /\ \E x \in Vars : VarGet(x)
+        \/ Can /\ Freeze
+        \/ Can /\ AnySnapRead
+        \/ Can /\ AnySnapWrite
 Spec == Init /\ [][Next]_vars
 
 ----------------------------------------------------------------------------
@@ -188,7 +227,8 @@ PathsDistinct == Cardinality(Paths) = NPaths
 \* ... and distinct paths have distinct storage keys
 KeysDistinct == Cardinality({Key(p) : p \in Paths}) = NPaths
 \* the concrete store holds exactly the ideal contents: no entry lost, overwritten or leaked
-Refines == StorePairs(store) = IdealStorePairs
+Refines == /\ StorePairs(store) = IdealStorePairs
+           /\ snap.on => StorePairs(snap.s) = IdealPairsOf(sideal[1], sideal[2], sideal[3])
 \* every result equals the result of an independent array / map / cell
 ResultsIdeal == [][hist' # hist => hist'[Len(hist')].res = hist'[Len(hist')].ires]_vars
 =============================================================================
